@@ -36,7 +36,10 @@ func SentinelMiddleware(opts ...Option) gear.Middleware {
 			return err
 		}
 
-		defer entry.Exit()
+		// gear runs middlewares one after another (there is no next() to wrap), so the handler has not run yet
+		// when this function returns: the entry must stay open until the request has ended. End hooks run on
+		// every path (normal completion, handler error, recovered panic).
+		ctx.OnEnd(func() { entry.Exit() })
 		return err
 	}
 }
